@@ -277,6 +277,41 @@ pub fn check_artifacts(sc: &E2Scenario, before: &Tree, after: &Tree, listed: &[S
                 }
                 rep.probe("type_header_mapped");
             }
+            // ... and every field of an object / input type: the property key in the declaration
+            // carries a segment named after the field into the field's name token, whether the
+            // field sits in the definition or in an `extend` piece (possibly in another file)
+            'types: for t in &p.schema.types {
+                if !(t.kind == Kind::Object || t.kind == Kind::Input) {
+                    continue;
+                }
+                let head = t.fields.len() - t.ext_tail.min(t.fields.len());
+                for (fi, f) in t.fields.iter().enumerate() {
+                    let in_ext = fi >= head;
+                    let def_file = p.schema_abs(if in_ext { t.ext_file } else { t.file });
+                    let Some(src_text) = str_tree(before, &def_file) else { continue };
+                    let idx = tok_cache.entry(def_file.clone()).or_insert_with(|| TokIndex::new(&src_text));
+                    let heads = indep::scan_headers(&idx.toks);
+                    let Some(hi) = heads.iter().position(|h| h.extend == in_ext && h.name.as_deref() == Some(t.name.as_str()) && h.keyword != "fragment") else { continue };
+                    let end = heads.get(hi + 1).map(|n| n.tok).unwrap_or(idx.toks.len());
+                    let decls = indep::scan_field_decls(&idx.toks, heads[hi].tok, end);
+                    let Some((_, ti)) = decls.iter().find(|(n, _)| *n == f.name) else { continue };
+                    let ft = &idx.toks[*ti];
+                    let hit = m.segs.iter().any(|s| {
+                        s.src.is_some_and(|(si, sl, sc)| si >= 0 && (si as usize) < m.sources.len() && m.sources[si as usize] == def_file && sl as usize == ft.line && sc as usize == ft.col16)
+                            && s.name.is_some_and(|n| n >= 0 && (n as usize) < m.names.len() && m.names[n as usize] == f.name)
+                            && gen_lines.get(s.gen_line).and_then(|l| at_col16(l, s.gen_col)).is_some_and(|rest| rest.starts_with(f.name.as_str()))
+                    });
+                    if !hit {
+                        rep.violate(
+                            &["C06"],
+                            "C06.6-schema-field-unmapped",
+                            format!("{so}.map: no segment maps a generated property {:?} of {:?} to the field's name at {def_file}:{}:{}", f.name, t.name, ft.line, ft.col),
+                        );
+                        break 'types;
+                    }
+                    rep.probe("field_mapped");
+                }
+            }
         }
     }
     // operation declaration files: own and imported definitions
